@@ -61,7 +61,7 @@ func epochName(leaf string, epoch int) string {
 func protectedLeaf(leaf string) bool {
 	const r = rootPkg
 	// scratch ghost variables that merely record the latest external call are not protected
-	if strings.HasPrefix(leaf, "G:"+r+".ghost.io") || strings.HasPrefix(leaf, "G:"+r+".ghost.utc") {
+	if strings.HasPrefix(leaf, "G:"+r+".ghost.io") || strings.HasPrefix(leaf, "G:"+r+".ghost.utc") || strings.HasPrefix(leaf, "G:"+r+".ghost.cf") {
 		return false
 	}
 	for _, p := range []string{"G:" + r + ".ghost.", "F:" + r + ".Entry.", "F:" + r + ".dualWriter.", "F:" + r + ".logwr.", "F:" + r + ".filewr.",
